@@ -96,14 +96,19 @@ def get_title_injection_candidate(node: n.Node) -> Optional[n.Parent[n.Node]]:
 
 
 def without_ref_roles(
-    nodes: Sequence[n.Node], own: Tuple[str, str, str]
+    nodes: Sequence[n.Node], own: n.RefRole
 ) -> MutableSequence[n.Node]:
     """Replace every cross-reference role in a list of (freshly copied) nodes by its own children;
-    a reference to the target "own" (domain, name, target) itself is dropped altogether."""
+    a reference to what "own" itself refers to is dropped altogether."""
     result: MutableSequence[n.Node] = []
     for node in nodes:
         if isinstance(node, n.RefRole):
-            if (node.domain, node.name, node.target) != own:
+            if (node.domain, node.name, node.target, node.fileid) != (
+                own.domain,
+                own.name,
+                own.target,
+                own.fileid,
+            ):
                 result.extend(without_ref_roles(node.children, own))
             continue
         if isinstance(node, n.Parent):
@@ -1934,8 +1939,7 @@ class RefsHandler(Handler):
             # label has this very node in its title: injecting a copy of it, which would be
             # visited and given the title again, would never end.
             cloned_title_nodes: MutableSequence[n.Node] = without_ref_roles(
-                [deepcopy(node) for node in result.title],
-                (node.domain, node.name, node.target),
+                [deepcopy(node) for node in result.title], node
             )
             for title_node in cloned_title_nodes:
                 deep_copy_position(node, title_node)
@@ -2006,7 +2010,9 @@ class RefsHandler(Handler):
             )
             return
 
-        node.children = [deepcopy(node) for node in title]
+        # Same as for labels: a page title that links to its own page (or two page titles
+        # that link to each other) must not be copied into the link, links and all.
+        node.children = without_ref_roles([deepcopy(child) for child in title], node)
 
 
 class FacetsHandler(Handler):
